@@ -23,13 +23,13 @@ from vlib import f2b, fs2b, b2f, b2fs, ints
 from props import c01
 
 ID = "C07"
-GEN = ["Leaves", "Misc", "Params"]
+GEN = ["Leaves", "Misc", "Params", "Planar"]
 RULE = ("constructor round trips Affine/Scale over magnitudes 1e-6..1e6; every leaf kind's transform/inverse on boundary-directed inputs with "
         "non-default parameters; Permute with permutations of rank 1-3 (all permutations of size<=4 in quick, random up to 12), invalid "
         "permutation arrays; Flip on ranks 1-3; AdditiveCondition with random f; non-trivial = non-default parameters or non-identity permutation; "
         "distinct = distinct (object, method, input)")
 TRUSTED = c01.TRUSTED + ["Model/Ctors.lean (softplus reparameterisation wiring) and Model/Perm.lean (flat row-major Permute, argsort) are hand models validated here"]
-ASSUMPTIONS = ["Planar and TriangularAffine documented-function theorems are not in this file yet; they are covered by the NumPy-reference oracle only"]
+ASSUMPTIONS = ["Planar: generated from _UnconditionalPlanar (tools/py2lean/targets_planar.py); TriangularAffine: hand model Model/Triangular.lean; both also covered by the NumPy-reference oracle"]
 TOL = dict(rtol=1e-8, atol=1e-10)
 
 
@@ -148,6 +148,10 @@ def corr(c, tier, rng):
                 c.mismatch("permute-ctor-check-vs-impl", op=line, model=got, impl=want, **info)
             continue
         c01.compare(c, "generated-kernels-vs-impl", line, got, want, info)
+    # --- Planar (generated, both activations, conditional through get_planar) and TriangularAffine (hand model)
+    from props import planar_tri
+    planar_tri.corr_planar(c, tier, rng, methods=("t", "i"))
+    planar_tri.corr_triangular(c, tier, rng, methods=("t", "i"))
 
 
 # ------------------------------------------------------------------ NumPy reference from the documentation
